@@ -1027,13 +1027,23 @@ class Node:
         if not predicate:
             raise ValueError("Predicate is required (use copy() instead)")
 
+        stopped = False
+
         def _visit(parent: Node) -> bool:
             """Return True if any descendant returned True."""
+            nonlocal stopped
             remove_nodes = []
             must_keep = False
 
-            for n in parent.children:
-                res = call_predicate(predicate, n)
+            children = parent.children
+            for idx, n in enumerate(children):
+                res = None if stopped else call_predicate(predicate, n)
+                if stopped or isinstance(res, StopTraversal):
+                    # End the scan and only keep what was accepted so far
+                    # (like the copying variant `filtered()` does)
+                    stopped = True
+                    remove_nodes.extend(children[idx:])
+                    break
                 if res in (None, False):  # Keep only if has a `true` descendant
                     if _visit(n):
                         must_keep = True
@@ -1052,8 +1062,6 @@ class Node:
                         remove_nodes.extend(n.children)
                     else:
                         remove_nodes.append(n)
-                elif isinstance(res, StopTraversal):
-                    raise res
 
             for n in remove_nodes:
                 n.remove()
